@@ -1,11 +1,607 @@
-import ShkModel.Model.Spot
-/-! # C08 — data points (theorems under construction) -/
+import ShkModel.Lemmas.Spot
+import ShkModel.Lemmas.AudObs
+import ShkModel.Lemmas.Pipeline
+/-!
+# C08 — each matching spotlight line yields exactly one correctly valued data point
+
+* `Spot.pointsOf` is the specification: the points a list of lines denotes for one signal of one
+  actor (one per matching, parsable line, in line order).
+* `Spot.detectLine` models `detectSignals` (one call per line, grouping by time stamp, sorting);
+  `Spot.detectAll` / `Spot.detectMulti` (in `Lemmas/Spot.lean`) thread the delta state over the
+  lines of one actor / of several interleaved actors.
+* `Aud.beginRound`, `Aud.round`, `Aud.run` model the audit loop that forwards every sample to the
+  collector as one `Out.obs`.
+
+Part 1 (`detect_*`): the model of `detectSignals` emits exactly the samples of `pointsOf`.
+Part 2 (`delta_value`, `event_text`, `scalar_value`, `ts_kind`, `malformed_*`): what the points are.
+Part 3 (`forwarded_*`): the audit loop forwards each sample exactly once.
+All statements are for arbitrary signal lists, sink predicates, actors and line lists.
+-/
 namespace Shk.C08
 open Shk Shk.Aud Shk.Spot
 
-/-- a line that matches no pattern yields no point and leaves the delta state alone -/
+/-! ## Part 1 — `detectSignals` emits exactly the points of the specification -/
+
+/-- **detect_points** (general initial delta state).  For a signal `sd` of the role that has a
+sink and whose name is unique among the role's signals, the samples emitted for it over all the
+lines of the actor — in emission order, with the stamp of the event carrying them — are exactly
+the points `pointsOf` denotes: one per matching parsable line, in line order, none otherwise;
+each sample carries the signal's type, the variable `[actor sd.name]` and the point's value. -/
+theorem detect_points_from (epoch : Rat) (sigs : List SigDef) (hasSink : String → Bool)
+    (actor : String) (sd : SigDef) (hs : hasSink sd.name = true)
+    (hu : sigs.filter (fun x => x.name == sd.name) = [sd]) (lasts : Lasts) (lines : List (List Char)) :
+    samplesOf actor sd.name (detectAll epoch sigs hasSink actor lasts lines).2 =
+      (pointsOf epoch sd (lasts.get (actor, sd.name)) lines).map (Point.toSample actor sd) :=
+  (detectAll_key epoch sigs hasSink actor sd hs hu lasts lines).2
+
+/-- **detect_points**: from the start of the play (`raw₀ = 0`). -/
+theorem detect_points (epoch : Rat) (sigs : List SigDef) (hasSink : String → Bool)
+    (actor : String) (sd : SigDef) (hs : hasSink sd.name = true)
+    (hu : sigs.filter (fun x => x.name == sd.name) = [sd]) (lines : List (List Char)) :
+    samplesOf actor sd.name (detectAll epoch sigs hasSink actor [] lines).2 =
+      (pointsOf epoch sd 0 lines).map (Point.toSample actor sd) :=
+  detect_points_from epoch sigs hasSink actor sd hs hu [] lines
+
+/-- the (stamp, value) reading of `detect_points` -/
+theorem detect_points_values (epoch : Rat) (sigs : List SigDef) (hasSink : String → Bool)
+    (actor : String) (sd : SigDef) (hs : hasSink sd.name = true)
+    (hu : sigs.filter (fun x => x.name == sd.name) = [sd]) (lines : List (List Char)) :
+    (samplesOf actor sd.name (detectAll epoch sigs hasSink actor [] lines).2).map
+        (fun x => (x.1, x.2.val)) =
+      (pointsOf epoch sd 0 lines).map fun p => (p.stamp, Val.sc p.val) := by
+  rw [detect_points epoch sigs hasSink actor sd hs hu lines, List.map_map]
+  rfl
+
+/-- the same under the configuration invariant "signal names are unique in a role" -/
+theorem detect_points_nodup (epoch : Rat) (sigs : List SigDef) (hasSink : String → Bool)
+    (actor : String) (sd : SigDef) (hm : sd ∈ sigs) (hn : (sigs.map (·.name)).Nodup)
+    (hs : hasSink sd.name = true) (lines : List (List Char)) :
+    samplesOf actor sd.name (detectAll epoch sigs hasSink actor [] lines).2 =
+      (pointsOf epoch sd 0 lines).map (Point.toSample actor sd) :=
+  detect_points epoch sigs hasSink actor sd hs (filter_name_of_nodup sigs sd hm hn) lines
+
+/-- the delta state of `(actor, sd.name)` evolves as the `last` argument of `pointsOf` -/
+theorem detect_state (epoch : Rat) (sigs : List SigDef) (hasSink : String → Bool)
+    (actor : String) (sd : SigDef) (hs : hasSink sd.name = true)
+    (hu : sigs.filter (fun x => x.name == sd.name) = [sd]) (lasts : Lasts) (lines : List (List Char)) :
+    (detectAll epoch sigs hasSink actor lasts lines).1.get (actor, sd.name) =
+      lastAfter epoch sd (lasts.get (actor, sd.name)) lines :=
+  (detectAll_key epoch sigs hasSink actor sd hs hu lasts lines).1
+
+/-- per line: at most one sample per watched signal, namely the one `sampleOf` denotes -/
+theorem detect_line (epoch : Rat) (sigs : List SigDef) (hasSink : String → Bool)
+    (actor : String) (sd : SigDef) (hs : hasSink sd.name = true)
+    (hu : sigs.filter (fun x => x.name == sd.name) = [sd]) (lasts : Lasts) (line : List Char) :
+    samplesOf actor sd.name (detectLine epoch sigs hasSink actor lasts line).2 =
+      (sampleOf epoch sd (lasts.get (actor, sd.name)) line).2.toList.map (Point.toSample actor sd) ∧
+    (samplesOf actor sd.name (detectLine epoch sigs hasSink actor lasts line).2).length ≤ 1 := by
+  have h := (detectLine_key epoch sigs hasSink actor lasts line sd hs hu).2
+  exact ⟨h, by rw [h]; exact toList_map_length_le _ _⟩
+
+/-- a signal without a sink (no observer watches it) yields nothing, whatever the lines -/
+theorem detect_no_sink (epoch : Rat) (sigs : List SigDef) (hasSink : String → Bool)
+    (actor : String) (name : String) (hs : hasSink name = false) (lasts : Lasts)
+    (lines : List (List Char)) :
+    samplesOf actor name (detectAll epoch sigs hasSink actor lasts lines).2 = [] :=
+  (detectAll_other epoch sigs hasSink actor actor name
+    (fun sd _ => by
+      by_cases h : sd.name = name
+      · exact Or.inr (h ▸ hs)
+      · exact Or.inl fun e => h (Prod.mk.inj e).2) lasts lines).2
+
+/-- nothing is ever emitted for a variable of another actor or a signal the role does not have -/
+theorem detect_foreign (epoch : Rat) (sigs : List SigDef) (hasSink : String → Bool)
+    (actor a n : String) (h : a ≠ actor ∨ ∀ sd ∈ sigs, sd.name ≠ n) (lasts : Lasts)
+    (lines : List (List Char)) :
+    samplesOf a n (detectAll epoch sigs hasSink actor lasts lines).2 = [] :=
+  (detectAll_other epoch sigs hasSink actor a n
+    (fun sd hsd => Or.inl fun e => by
+      rcases h with h | h
+      · exact h (Prod.mk.inj e).1.symm
+      · exact h sd hsd (Prod.mk.inj e).2) lasts lines).2
+
+/-- every emitted sample is well-formed: non-nil value, the actor's variable, a watched signal of
+the role, that signal's type -/
+theorem detect_wf (epoch : Rat) (sigs : List SigDef) (hasSink : String → Bool) (actor : String)
+    (lasts : Lasts) (line : List Char) :
+    ∀ e ∈ (detectLine epoch sigs hasSink actor lasts line).2, ∀ s ∈ e.samples,
+      s.val.isNil = false ∧ s.v.actor = actor ∧
+        ∃ sd ∈ sigs, hasSink sd.name = true ∧ s.v.sig = sd.name ∧ s.typ = sd.typ :=
+  detectLine_wf epoch sigs hasSink actor lasts line
+
+/-- **any number of actors per role**: with the lines of several actors interleaved in any way
+(one shared delta table keyed by actor and signal, as in the code), the samples of `[a sd.name]`
+are the points of the lines of actor `a` alone. -/
+theorem detect_points_multi (epoch : Rat) (sigs : List SigDef) (hasSink : String → String → Bool)
+    (a : String) (sd : SigDef) (hs : hasSink a sd.name = true)
+    (hu : sigs.filter (fun x => x.name == sd.name) = [sd]) (als : List (String × List Char)) :
+    samplesOf a sd.name (detectMulti epoch sigs hasSink [] als).2 =
+      (pointsOf epoch sd 0 (linesOf a als)).map (Point.toSample a sd) :=
+  (detectMulti_key epoch sigs hasSink a sd hs hu [] als).2
+
+/-! ### Non-vacuity of Part 1 -/
+
+/-- two signals sharing the tag `v` (one delta, one scalar) and an event signal with a date -/
+def exSigs : List SigDef :=
+  [⟨"d", "v", .delta, .deltasecs⟩, ⟨"s", "v", .scalar, .deltasecs⟩, ⟨"e", "e", .event, .rfc3339⟩,
+   ⟨"unwatched", "v", .scalar, .deltasecs⟩]
+
+def exSink : String → Bool := fun n => n != "unwatched"
+
+def exLines : List (List Char) :=
+  ["12.5 v=3".toList, "noise".toList, "13 v=5".toList, "14 v=oops".toList,
+   "2020-01-01T00:00:07.25Z e=hello".toList, "2020-13-01T00:00:07Z e=x".toList, "15 v=4".toList]
+
+/-- the hypotheses of `detect_points` hold for the delta signal of the example -/
+example : exSink "d" = true ∧ exSigs.filter (fun x => x.name == "d") = [⟨"d", "v", .delta, .deltasecs⟩] := by
+  decide
+
+example : (exSigs.map (·.name)).Nodup := by decide
+
+/-- … and the points are non-trivial: three deltas 3, 2, −1; the malformed `oops` is dropped -/
+example : pointsOf 1577836800 ⟨"d", "v", .delta, .deltasecs⟩ 0 exLines =
+    [⟨.at (25/2), .num 3⟩, ⟨.at 13, .num 2⟩, ⟨.at 15, .num (-1)⟩] := by decide +kernel
+
+/-- the model of `detectSignals` on the same lines (both sides of `detect_points_values`) -/
+example : (samplesOf "bob" "d" (detectAll 1577836800 exSigs exSink "bob" [] exLines).2).map
+      (fun x => (x.1, x.2.val)) =
+    [(.at (25/2), .sc (.num 3)), (.at 13, .sc (.num 2)), (.at 15, .sc (.num (-1)))] := by
+  decide +kernel
+
+/-- the scalar signal with the same tag gets its own point from the same lines -/
+example : (samplesOf "bob" "s" (detectAll 1577836800 exSigs exSink "bob" [] exLines).2).map
+      (fun x => (x.1, x.2.val)) =
+    [(.at (25/2), .sc (.num 3)), (.at 13, .sc (.num 5)), (.at 15, .sc (.num 4))] := by
+  decide +kernel
+
+/-- the event with a date: one point 7.25 s after the epoch; the line with month 13 is dropped -/
+example : (samplesOf "bob" "e" (detectAll 1577836800 exSigs exSink "bob" [] exLines).2).map
+      (fun x => (x.1, x.2.val)) = [(.at (29/4), .sc (.str "hello"))] := by
+  decide +kernel
+
+example : samplesOf "bob" "unwatched" (detectAll 1577836800 exSigs exSink "bob" [] exLines).2 = [] :=
+  detect_no_sink _ _ _ _ _ (by decide) _ _
+
+/-- uniqueness of the name is needed: a name declared twice yields two samples per line -/
+example : (samplesOf "bob" "s" (detectLine 0 [⟨"s", "v", .scalar, .now⟩, ⟨"s", "v", .scalar, .now⟩]
+      (fun _ => true) "bob" [] "v=1".toList).2).length = 2 := by decide +kernel
+
+/-! ## Part 2 — the value and the time stamp of a point -/
+
+/-- **delta_value** (list form): the points of a delta signal are the successive differences of
+the raw readings (`rawOf`: lines that match with a parsable stamp and number), the first against
+`last` (0 at the start of the play). -/
+theorem delta_points (epoch : Rat) (sd : SigDef) (last : Rat) (lines : List (List Char))
+    (h : sd.typ = .delta) :
+    pointsOf epoch sd last lines = diffs last (lines.filterMap (rawOf epoch sd)) :=
+  pointsOf_delta epoch sd last lines h
+
+/-- **delta_value**: there are as many points as raw readings, and the k-th point carries the
+stamp of the k-th reading and the value `rawₖ − rawₖ₋₁`, with `raw₋₁ = 0`. -/
+theorem delta_value (epoch : Rat) (sd : SigDef) (lines : List (List Char)) (h : sd.typ = .delta)
+    (k : Nat) :
+    (pointsOf epoch sd 0 lines).length = (lines.filterMap (rawOf epoch sd)).length ∧
+    (pointsOf epoch sd 0 lines)[k]? =
+      (lines.filterMap (rawOf epoch sd))[k]?.map fun r =>
+        ⟨r.1, .num (r.2 - (((0 : Rat) :: (lines.filterMap (rawOf epoch sd)).map (·.2))[k]?).getD 0)⟩ := by
+  rw [pointsOf_delta epoch sd 0 lines h]
+  exact ⟨diffs_length _ _, diffs_getElem? _ _ _⟩
+
+/-- `delta_value` spelled out: first point, and any two consecutive readings -/
+theorem delta_value_first (epoch : Rat) (sd : SigDef) (lines : List (List Char)) (h : sd.typ = .delta)
+    (st : Stamp) (x : Rat) (h0 : (lines.filterMap (rawOf epoch sd))[0]? = some (st, x)) :
+    (pointsOf epoch sd 0 lines)[0]? = some ⟨st, .num (x - 0)⟩ := by
+  rw [(delta_value epoch sd lines h 0).2, h0]; rfl
+
+theorem delta_value_succ (epoch : Rat) (sd : SigDef) (lines : List (List Char)) (h : sd.typ = .delta)
+    (k : Nat) (s0 s1 : Stamp) (x0 x1 : Rat)
+    (h0 : (lines.filterMap (rawOf epoch sd))[k]? = some (s0, x0))
+    (h1 : (lines.filterMap (rawOf epoch sd))[k + 1]? = some (s1, x1)) :
+    (pointsOf epoch sd 0 lines)[k + 1]? = some ⟨s1, .num (x1 - x0)⟩ := by
+  rw [(delta_value epoch sd lines h (k + 1)).2, h1]
+  simp only [Option.map_some, List.getElem?_cons_succ, List.getElem?_map, h0]
+  rfl
+
+example : (exLines.filterMap (rawOf 0 ⟨"d", "v", .delta, .deltasecs⟩)) =
+    [(.at (25/2), 3), (.at 13, 5), (.at 15, 4)] := by decide +kernel
+
+/-- **event_text**: the points of an event signal are, line by line, the captured text under the
+line's stamp; the delta state plays no role. -/
+theorem event_text (epoch : Rat) (sd : SigDef) (last : Rat) (lines : List (List Char))
+    (h : sd.typ = .event) :
+    pointsOf epoch sd last lines =
+      (lines.filterMap (textOf epoch sd)).map fun r => ⟨r.1, .str r.2⟩ :=
+  pointsOf_event epoch sd last lines h
+
+/-- one line: pattern matched with an accepted stamp ⇒ the point carries the captured text -/
+theorem event_text_line (epoch : Rat) (sd : SigDef) (last : Rat) (line v : List Char) (st : Stamp)
+    (h : sd.typ = .event) (hm : matchSig epoch sd line = some (some st, v)) :
+    sampleOf epoch sd last line = (last, some ⟨st, .str (String.ofList v)⟩) := by
+  simp [sampleOf, hm, h]
+
+/-- **scalar_value**: the points of a scalar signal are, line by line, the parsed number under
+the line's stamp. -/
+theorem scalar_value (epoch : Rat) (sd : SigDef) (last : Rat) (lines : List (List Char))
+    (h : sd.typ = .scalar) :
+    pointsOf epoch sd last lines =
+      (lines.filterMap (rawOf epoch sd)).map fun r => ⟨r.1, .num r.2⟩ :=
+  pointsOf_scalar epoch sd last lines h
+
+theorem scalar_value_line (epoch : Rat) (sd : SigDef) (last : Rat) (line v : List Char) (st : Stamp)
+    (x : Rat) (h : sd.typ = .scalar) (hm : matchSig epoch sd line = some (some st, v))
+    (hx : parseFloat v = some x) :
+    sampleOf epoch sd last line = (last, some ⟨st, .num x⟩) := by
+  simp [sampleOf, hm, h, hx]
+
+theorem delta_value_line (epoch : Rat) (sd : SigDef) (last : Rat) (line v : List Char) (st : Stamp)
+    (x : Rat) (h : sd.typ = .delta) (hm : matchSig epoch sd line = some (some st, v))
+    (hx : parseFloat v = some x) :
+    sampleOf epoch sd last line = (x, some ⟨st, .num (x - last)⟩) := by
+  simp [sampleOf, hm, h, hx]
+
+/-- the captured text is what follows `<tag>=` up to the end of the line, non-empty and free of
+white space; before the tag there is nothing (ts_now) or the time stamp and one blank -/
+theorem captured_text (epoch : Rat) (sd : SigDef) (line v : List Char) (st : Option Stamp)
+    (hm : matchSig epoch sd line = some (st, v)) :
+    v ≠ [] ∧ v.all (fun c => !isSp c) = true ∧
+    ∃ pre, line = pre ++ (sd.tag.toList ++ '=' :: v) ∧
+      (sd.ts = .now → pre = []) ∧
+      (sd.ts = .deltasecs ∨ sd.ts = .rfc3339 → pre = line.takeWhile (· != ' ') ++ [' ']) ∧
+      (sd.ts = .log → pre = line.take 22 ++ [' ']) := by
+  unfold matchSig at hm
+  cases hts : sd.ts <;> simp only [hts] at hm
+  · -- now
+    cases hmt : matchTagged sd.tag line with
+    | none => simp [hmt] at hm
+    | some w =>
+      simp only [hmt, Option.map_some, Option.some.injEq, Prod.mk.injEq] at hm
+      obtain ⟨-, rfl⟩ := hm
+      obtain ⟨h1, h2, h3⟩ := matchTagged_some _ _ _ hmt
+      exact ⟨h2, h3, [], by simpa using h1, by simp⟩
+  · -- deltasecs
+    split at hm
+    · rename_i rest hd
+      split at hm
+      · cases hmt : matchTagged sd.tag rest with
+        | none => simp [hmt] at hm
+        | some w =>
+          simp only [hmt, Option.map_some, Option.some.injEq, Prod.mk.injEq] at hm
+          obtain ⟨-, rfl⟩ := hm
+          obtain ⟨h1, h2, h3⟩ := matchTagged_some _ _ _ hmt
+          refine ⟨h2, h3, line.takeWhile (· != ' ') ++ [' '], ?_, by simp, by simp, by simp⟩
+          have := (List.takeWhile_append_dropWhile (p := (· != ' ')) (l := line)).symm
+          rw [hd, h1] at this
+          simpa using this
+      · cases hm
+    · cases hm
+  · -- rfc3339
+    split at hm
+    · rename_i rest hd
+      split at hm
+      · cases hmt : matchTagged sd.tag rest with
+        | none => simp [hmt] at hm
+        | some w =>
+          simp only [hmt, Option.map_some, Option.some.injEq, Prod.mk.injEq] at hm
+          obtain ⟨-, rfl⟩ := hm
+          obtain ⟨h1, h2, h3⟩ := matchTagged_some _ _ _ hmt
+          refine ⟨h2, h3, line.takeWhile (· != ' ') ++ [' '], ?_, by simp, by simp, by simp⟩
+          have := (List.takeWhile_append_dropWhile (p := (· != ' ')) (l := line)).symm
+          rw [hd, h1] at this
+          simpa using this
+      · cases hm
+    · cases hm
+  · -- log
+    split at hm
+    · rename_i r rest hp hd
+      cases hmt : matchTagged sd.tag rest with
+      | none => simp [hmt] at hm
+      | some w =>
+        simp only [hmt, Option.map_some, Option.some.injEq, Prod.mk.injEq] at hm
+        obtain ⟨-, rfl⟩ := hm
+        obtain ⟨h1, h2, h3⟩ := matchTagged_some _ _ _ hmt
+        refine ⟨h2, h3, line.take 22 ++ [' '], ?_, by simp, by simp, by simp⟩
+        have := (List.take_append_drop 22 line).symm
+        rw [hd, h1] at this
+        simpa using this
+    · cases hm
+
+/-- **ts_kind**: the stamp of a point is the reception time for `ts_now`; the parsed captured
+seconds since the start of the play for `ts_deltasecs`; the captured date minus the epoch of the
+play (i.e. that date, on the play's clock) for `ts_rfc3339` and `ts_log`. -/
+theorem ts_kind (epoch : Rat) (sd : SigDef) (last last' : Rat) (line : List Char) (p : Point)
+    (h : sampleOf epoch sd last line = (last', some p)) :
+    (sd.ts = .now → p.stamp = .now) ∧
+    (sd.ts = .deltasecs → ∃ secs, isDeltaSecs (line.takeWhile (· != ' ')) = true ∧
+        parseFloat (line.takeWhile (· != ' ')) = some secs ∧ p.stamp = .at secs) ∧
+    (sd.ts = .rfc3339 → ∃ u, parseRfc3339 (line.takeWhile (· != ' ')) = some (some u) ∧
+        p.stamp = .at (u - epoch)) ∧
+    (sd.ts = .log → ∃ u, parseLogTs (line.take 22) = some (some u) ∧ p.stamp = .at (u - epoch)) := by
+  -- the sample comes from a match with an accepted stamp, which is the point's stamp
+  have hm : ∃ v, matchSig epoch sd line = some (some p.stamp, v) := by
+    unfold sampleOf at h
+    rcases hms : matchSig epoch sd line with _ | ⟨_ | st, v⟩
+    · simp [hms] at h
+    · simp [hms] at h
+    · refine ⟨v, ?_⟩
+      simp only [hms] at h
+      cases ht : sd.typ <;> simp only [ht] at h
+      · simp only [Prod.mk.injEq, Option.some.injEq] at h
+        rw [← h.2]
+      · cases hp : parseFloat v <;> simp only [hp, Prod.mk.injEq, Option.some.injEq] at h
+        · exact absurd h.2 (by simp)
+        · rw [← h.2]
+      · cases hp : parseFloat v <;> simp only [hp, Prod.mk.injEq, Option.some.injEq] at h
+        · exact absurd h.2 (by simp)
+        · rw [← h.2]
+  obtain ⟨v, hm⟩ := hm
+  unfold matchSig at hm
+  refine ⟨fun hts => ?_, fun hts => ?_, fun hts => ?_, fun hts => ?_⟩ <;> simp only [hts] at hm
+  · cases hmt : matchTagged sd.tag line <;> simp [hmt] at hm
+    exact hm.1.symm
+  · split at hm
+    · rename_i rest hd
+      split at hm
+      · rename_i hds
+        cases hmt : matchTagged sd.tag rest <;> simp [hmt] at hm
+        obtain ⟨⟨secs, h1, h2⟩, -⟩ := hm
+        exact ⟨secs, hds, h1, h2.symm⟩
+      · cases hm
+    · cases hm
+  · split at hm
+    · rename_i rest hd
+      split at hm
+      · rename_i r hr
+        cases hmt : matchTagged sd.tag rest <;> simp [hmt] at hm
+        obtain ⟨⟨u, h1, h2⟩, -⟩ := hm
+        exact ⟨u, by rw [hr, h1], h2.symm⟩
+      · cases hm
+    · cases hm
+  · split at hm
+    · rename_i r rest hr hd
+      cases hmt : matchTagged sd.tag rest <;> simp [hmt] at hm
+      obtain ⟨⟨u, h1, h2⟩, -⟩ := hm
+      exact ⟨u, by rw [hr, h1], h2.symm⟩
+    · cases hm
+
+/-! ### Non-vacuity of Part 2: numbers, dates, stamps -/
+
+example : parseFloat "12.5".toList = some (25/2) := by decide +kernel
+example : parseFloat "-3".toList = some (-3) := by decide +kernel
+example : parseFloat "+.5".toList = some (1/2) := by decide +kernel
+example : parseFloat "1.5e2".toList = some 150 := by decide +kernel
+example : parseFloat "25E-1".toList = some (5/2) := by decide +kernel
+example : parseFloat "oops".toList = none := by decide +kernel
+example : parseFloat "".toList = none := by decide +kernel
+example : parseFloat "1.2.3".toList = none := by decide +kernel
+example : parseFloat "1e".toList = none := by decide +kernel
+
+example : parseRfc3339 "2020-01-01T00:00:07.25Z".toList = some (some (1577836800 + 29/4)) := by
+  decide +kernel
+/-- month 13: the pattern matches, `time.Parse` rejects -/
+example : parseRfc3339 "2020-13-01T00:00:07Z".toList = some none := by decide +kernel
+example : parseRfc3339 "yesterday".toList = none := by decide +kernel
+example : parseLogTs "200101 00:00:07.250000".toList = some (some (1577836800 + 1/4 + 7)) := by
+  decide +kernel
+
+example : sampleOf 0 ⟨"s", "v", .scalar, .now⟩ 0 "v=3".toList = (0, some ⟨.now, .num 3⟩) := by
+  decide +kernel
+example : sampleOf 0 ⟨"s", "v", .scalar, .deltasecs⟩ 0 "12.5 v=3".toList =
+    (0, some ⟨.at (25/2), .num 3⟩) := by decide +kernel
+example : sampleOf 1577836800 ⟨"e", "e", .event, .rfc3339⟩ 0 "2020-01-01T00:00:07.25Z e=hello".toList =
+    (0, some ⟨.at (29/4), .str "hello"⟩) := by decide +kernel
+example : sampleOf 1577836800 ⟨"e", "e", .event, .log⟩ 0 "200101 00:00:07.250000 e=hello".toList =
+    (0, some ⟨.at (29/4), .str "hello"⟩) := by decide +kernel
+example : sampleOf 0 ⟨"d", "v", .delta, .now⟩ 2 "v=5".toList = (5, some ⟨.now, .num 3⟩) := by
+  decide +kernel
+
+/-! ## Malformed captures drop the point, never anything else -/
+
+/-- the pattern of `sd` matches the line but the captured date, or the captured number of a
+scalar/delta signal, is rejected by its parser -/
+def Malformed (epoch : Rat) (sd : SigDef) (line : List Char) : Prop :=
+  (∃ v, matchSig epoch sd line = some (none, v)) ∨
+  (sd.typ ≠ .event ∧ ∃ st v, matchSig epoch sd line = some (st, v) ∧ parseFloat v = none)
+
+/-- a malformed line yields no point for that signal and leaves its delta state unchanged -/
+theorem malformed_no_point (epoch : Rat) (sd : SigDef) (last : Rat) (line : List Char)
+    (h : Malformed epoch sd line) : sampleOf epoch sd last line = (last, none) := by
+  rcases h with ⟨v, hm⟩ | ⟨ht, st, v, hm, hp⟩
+  · simp [sampleOf, hm]
+  · unfold sampleOf
+    rw [hm]
+    cases st with
+    | none => rfl
+    | some st => cases hty : sd.typ <;> simp_all
+
+/-- **malformed_drops_point_only**: a line that yields no point for `sd` without moving its delta
+state — in particular a malformed one, or one that matches no pattern — can be removed from the
+output of the actor without changing any of the other points of `sd` (values of later deltas
+included) nor the final delta state. -/
+theorem silent_line_removable (epoch : Rat) (sd : SigDef) (last : Rat) (pre post : List (List Char))
+    (l : List Char)
+    (h : sampleOf epoch sd (lastAfter epoch sd last pre) l = (lastAfter epoch sd last pre, none)) :
+    pointsOf epoch sd last (pre ++ l :: post) = pointsOf epoch sd last (pre ++ post) ∧
+    lastAfter epoch sd last (pre ++ l :: post) = lastAfter epoch sd last (pre ++ post) := by
+  rw [pointsOf_append, pointsOf_append, lastAfter_append, lastAfter_append, pointsOf_cons]
+  simp [lastAfter, h]
+
+theorem malformed_drops_point_only (epoch : Rat) (sd : SigDef) (last : Rat)
+    (pre post : List (List Char)) (l : List Char) (h : Malformed epoch sd l) :
+    sampleOf epoch sd (lastAfter epoch sd last pre) l = (lastAfter epoch sd last pre, none) ∧
+    pointsOf epoch sd last (pre ++ l :: post) = pointsOf epoch sd last (pre ++ post) ∧
+    lastAfter epoch sd last (pre ++ l :: post) = lastAfter epoch sd last (pre ++ post) :=
+  ⟨malformed_no_point epoch sd _ l h,
+   silent_line_removable epoch sd last pre post l (malformed_no_point epoch sd _ l h)⟩
+
+/-- the same at the level of the model of `detectSignals`: the samples emitted for the watched
+signal are those of the output with the malformed line removed — the run continues, the other
+lines keep their points -/
+theorem malformed_drops_sample_only (epoch : Rat) (sigs : List SigDef) (hasSink : String → Bool)
+    (actor : String) (sd : SigDef) (hs : hasSink sd.name = true)
+    (hu : sigs.filter (fun x => x.name == sd.name) = [sd]) (pre post : List (List Char))
+    (l : List Char) (h : Malformed epoch sd l) :
+    samplesOf actor sd.name (detectAll epoch sigs hasSink actor [] (pre ++ l :: post)).2 =
+      samplesOf actor sd.name (detectAll epoch sigs hasSink actor [] (pre ++ post)).2 := by
+  rw [detect_points epoch sigs hasSink actor sd hs hu, detect_points epoch sigs hasSink actor sd hs hu,
+    (malformed_drops_point_only epoch sd 0 pre post l h).2.1]
+
+/-- a line matching no pattern of `sd` is equally silent -/
 theorem nomatch_no_point (epoch : Rat) (sd : SigDef) (last : Rat) (line : List Char)
     (h : matchSig epoch sd line = none) : sampleOf epoch sd last line = (last, none) := by
   simp [sampleOf, h]
+
+/-- `Malformed` is satisfiable both ways: a rejected date, a rejected number -/
+example : Malformed 0 ⟨"e", "e", .event, .rfc3339⟩ "2020-13-01T00:00:07Z e=x".toList :=
+  Or.inl ⟨"x".toList, by decide +kernel⟩
+example : Malformed 0 ⟨"d", "v", .delta, .deltasecs⟩ "14 v=oops".toList :=
+  Or.inr ⟨by decide, some (.at 14), "oops".toList, by decide +kernel, by decide +kernel⟩
+
+/-- the malformed line of the example removed: the same points -/
+example : pointsOf 0 ⟨"d", "v", .delta, .deltasecs⟩ 0
+      ["12.5 v=3".toList, "13 v=5".toList, "14 v=oops".toList, "15 v=4".toList] =
+    pointsOf 0 ⟨"d", "v", .delta, .deltasecs⟩ 0 ["12.5 v=3".toList, "13 v=5".toList, "15 v=4".toList] :=
+  (malformed_drops_point_only 0 _ 0 ["12.5 v=3".toList, "13 v=5".toList] ["15 v=4".toList] _
+    (Or.inr ⟨by decide, some (.at 14), "oops".toList, by decide +kernel, by decide +kernel⟩)).2.1
+
+/-! ## Part 3 — the audit loop forwards every sample exactly once -/
+
+/-- **forwarded_once** (`beginRound`, the head of `checkEvent`): what the assignments of a round
+add to the output is `added`, consed in front of the previous output, and the signal
+observations (`Out.obs` of a variable with a non-empty actor) among `added` are exactly the
+non-nil samples of the event, once each, in order (`out` is kept reversed). -/
+theorem forwarded_once (c : Cfg) (ts : Rat) (samples : List Sample) (s : St) :
+    ∃ added, (beginRound c ts samples s).out = added ++ s.out ∧
+      sigObs added = (fwd ts samples).reverse := by
+  obtain ⟨pre, hpre, ho⟩ := beginRound_out c ts samples s
+  refine ⟨_ ++ pre, by rw [ho, List.append_assoc], ?_⟩
+  rw [sigObs_append, hpre, sigObs_forwarded, List.append_nil]
+  rfl
+
+/-- for the samples `detectSignals` produces (non-nil, of a named actor) nothing is filtered:
+every sample is forwarded -/
+theorem forwarded_all (ts : Rat) (samples : List Sample)
+    (h : ∀ x ∈ samples, x.val.isNil = false ∧ x.v.actor ≠ "") :
+    fwd ts samples = samples.map (Sample.obs ts) := by
+  unfold fwd
+  rw [List.filter_eq_self.2]
+  intro x hx
+  have := h x hx
+  simp [this.1, this.2]
+
+/-- `setAndActivateVar` for a sample (`collectChange = false`, the repair) emits nothing itself -/
+theorem setVar_sample_silent (c : Cfg) (s : St) (ts : Rat) (typ : Typ) (v : VarName) (val : Val) :
+    (setVar c s ts typ v val false).out = s.out :=
+  setVar_false_out c s ts typ v val
+
+/-- visiting an auditor never emits a signal observation: assignments target computed variables
+(actor `""`), the rest are reports and start/stop markers -/
+theorem visit_no_signal_obs (c : Cfg) (final : Bool) (ts : Rat) (s : St) (m : Member) :
+    ∃ added, (visit c final ts s m).out = added ++ s.out ∧ sigObs added = [] :=
+  visit_quiet c final ts s m
+
+theorem assign_no_signal_obs (c : Cfg) (ts : Rat) (s : St) (a : Assign) :
+    ∃ added, (assignOne c ts s a).out = added ++ s.out ∧ sigObs added = [] :=
+  assignOne_quiet c ts s a
+
+/-- **forwarded_once** for a whole round (`checkEvent`): the visits add no signal observation. -/
+theorem forwarded_once_round (c : Cfg) (final : Bool) (ts : Rat) (samples : List Sample) (s : St)
+    (h : s.abort = none) :
+    ∃ added, (round c final ts samples s).out = added ++ s.out ∧
+      sigObs added = (fwd ts samples).reverse := by
+  obtain ⟨pre, post, hpre, hpost, ho⟩ := round_out c final ts samples s h
+  refine ⟨post ++ (((samples.filter fun x => !x.val.isNil).map (Sample.obs ts)).reverse ++ pre),
+    by rw [ho]; simp, ?_⟩
+  rw [sigObs_append, sigObs_append, hpre, hpost, sigObs_forwarded]
+  simp [fwd]
+
+/-- after an abort (evaluation error in an `audits`/`computes`/`collects` expression) the loop
+has returned: nothing more is processed -/
+theorem aborted_round (c : Cfg) (final : Bool) (ts : Rat) (samples : List Sample) (s : St)
+    (h : s.abort.isSome = true) : round c final ts samples s = s :=
+  round_aborted c final ts samples s h
+
+/-- **forwarded_once** for the whole audition: the signal observations of a run are, in order,
+the samples of the events processed — all of them when the loop did not abort, those before the
+abort otherwise; no event is forwarded twice, none is skipped. -/
+theorem forwarded_run (c : Cfg) (evs : List Ev) (tEnd : Rat) :
+    ∃ k, k ≤ evs.length ∧
+      (sigObs (run c evs tEnd).out).reverse = (evs.take k).flatMap Ev.fwd ∧
+      ((evs.foldl (stepEv c) (start c)).abort = none → k = evs.length) := by
+  obtain ⟨k, hk, ho, ha⟩ := sigObs_events c (start c) evs
+  refine ⟨k, hk, ?_, ha⟩
+  simp only [run]
+  rw [sigObs_round, ← List.reverse_inj] at *
+  simp only [Option.isSome_none, Bool.false_eq_true, if_false, fwd, List.filter_nil, List.map_nil,
+    List.reverse_nil, List.nil_append]
+  rw [sigObs_start] at ho
+  simpa using ho
+
+theorem forwarded_run_all (c : Cfg) (evs : List Ev) (tEnd : Rat)
+    (h : (evs.foldl (stepEv c) (start c)).abort = none) :
+    (sigObs (run c evs tEnd).out).reverse = evs.flatMap Ev.fwd := by
+  obtain ⟨k, -, ho, ha⟩ := forwarded_run c evs tEnd
+  rw [ho, ha h, List.take_length]
+
+/-! ### Non-vacuity of Part 3 -/
+
+def exCfg : Cfg :=
+  { members := [{ name := "obs", cond := .lit (.bool true), assigns := [], expect := none,
+                  watches := [⟨"bob", "d"⟩, ⟨"bob", "e"⟩] }] }
+
+def exSamples : List Sample :=
+  [⟨.delta, ⟨"bob", "d"⟩, .sc (.num 3)⟩, ⟨.event, ⟨"bob", "e"⟩, .sc (.str "hello")⟩]
+
+example : fwd 7 exSamples =
+    [.obs 7 .delta ⟨"bob", "d"⟩ (.sc (.num 3)), .obs 7 .event ⟨"bob", "e"⟩ (.sc (.str "hello"))] := by
+  rw [forwarded_all 7 exSamples (by decide)]; rfl
+
+/-- a run of two events that does not abort, each sample forwarded once although the value of
+`[bob d]` repeats -/
+example : ((run exCfg [.sig 7 exSamples, .sig 8 exSamples] 9).abort = none) ∧
+    ((sigObs (run exCfg [.sig 7 exSamples, .sig 8 exSamples] 9).out).length = 4) := by
+  decide +kernel
+
+/-! ## Parts 1 and 3 composed: lines → `detectSignals` → audit loop → observations -/
+
+/-- **rows_exact**.  Take the lines of an actor, each with its reception time (any pace), run the
+model of `detectSignals` on each, hand the emitted events to the audit loop (`pipeEvs`, the
+composition of the driver) and let the audition run to its end without an evaluation abort.
+Then the observations of `[actor sd.name]` in the output, in emission order, are exactly the rows
+`rowsOf` specifies — one per matching parsable line, in line order, with the signal's type, the
+point's value, and as time the reception time (ts_now) or the captured time. -/
+theorem rows_exact (c : Cfg) (epoch : Rat) (sigs : List SigDef) (hasSink : String → Bool)
+    (actor : String) (hact : actor ≠ "") (sd : SigDef) (hs : hasSink sd.name = true)
+    (hu : sigs.filter (fun x => x.name == sd.name) = [sd]) (tls : List (Rat × List Char)) (tEnd : Rat)
+    (hna : ((pipeEvs epoch sigs hasSink actor [] tls).foldl (stepEv c) (start c)).abort = none) :
+    rowsFor ⟨actor, sd.name⟩ (run c (pipeEvs epoch sigs hasSink actor [] tls) tEnd).out.reverse =
+      (rowsOf epoch sd 0 tls).map fun r => (r.1, sd.typ, Val.sc r.2) := by
+  rw [← rowsFor_sigObs ⟨actor, sd.name⟩ hact,
+    show sigObs (run c (pipeEvs epoch sigs hasSink actor [] tls) tEnd).out.reverse =
+      (sigObs (run c (pipeEvs epoch sigs hasSink actor [] tls) tEnd).out).reverse by
+      simp [sigObs, List.filter_reverse],
+    forwarded_run_all c _ tEnd hna]
+  exact pipeEvs_rows epoch sigs hasSink actor hact sd hs hu [] tls
+
+/-- the values of the rows are the values of the points of `pointsOf` -/
+theorem rows_values (epoch : Rat) (sd : SigDef) (tls : List (Rat × List Char)) :
+    (rowsOf epoch sd 0 tls).map (·.2) = (pointsOf epoch sd 0 (tls.map (·.2))).map (·.val) :=
+  rowsOf_vals epoch sd 0 tls
+
+def exTimed : List (Rat × List Char) :=
+  [(100, "12.5 v=3".toList), (101, "noise".toList), (102, "13 v=5".toList), (103, "14 v=oops".toList),
+   (104, "2020-01-01T00:00:07.25Z e=hello".toList), (105, "2020-13-01T00:00:07Z e=x".toList),
+   (106, "15 v=4".toList)]
+
+/-- the hypothesis "no abort" of `rows_exact` holds for the example play … -/
+example : ((pipeEvs 1577836800 exSigs exSink "bob" [] exTimed).foldl (stepEv exCfg) (start exCfg)).abort
+    = none := by decide +kernel
+
+/-- … whose rows are non-trivial (both sides of `rows_exact`) -/
+example : rowsFor ⟨"bob", "d"⟩ (run exCfg (pipeEvs 1577836800 exSigs exSink "bob" [] exTimed) 200).out.reverse
+    = [(25/2, .delta, .sc (.num 3)), (13, .delta, .sc (.num 2)), (15, .delta, .sc (.num (-1)))] := by
+  decide +kernel
+
+example : rowsOf 0 ⟨"n", "v", .scalar, .now⟩ 0 [(100, "v=3".toList), (101, "v=x".toList), (102, "v=4".toList)]
+    = [(100, .num 3), (102, .num 4)] := by decide +kernel
 
 end Shk.C08
